@@ -1,309 +1,6 @@
 /-
 C07 — Standard Monte-Carlo price, error and control-variate adjustment are textbook.
 Property theorems about RpylibModel/Model/Stats.lean, for every number of paths and every sample.
+The theorems live in the lemma files imported here (one payoff component: Lemmas/C07Basic.lean).
 -/
-import RpylibModel.Model.Stats
-import Mathlib.Tactic.Linarith
-import Mathlib.Tactic.Ring
-import Mathlib.Tactic.FieldSimp
-import Mathlib.Tactic.Positivity
-import Mathlib.Algebra.Order.Field.Rat
-
-namespace Rpylib.Stats
-
-/-! ### linearity of the finite sum (helper lemmas) -/
-
-private theorem listSum_append (a b : List Rat) : listSum (a ++ b) = listSum a + listSum b := by
-  induction a with
-  | nil => simp [listSum]
-  | cons x t ih => simp only [listSum, List.cons_append, List.foldr_cons] at ih ⊢; rw [ih]; ring
-
-theorem sumTo_zero (f : Nat → Rat) : sumTo 0 f = 0 := by simp [sumTo, listSum]
-
-theorem sumTo_succ (n : Nat) (f : Nat → Rat) : sumTo (n + 1) f = sumTo n f + f n := by
-  simp only [sumTo, List.range_succ, List.map_append, listSum_append]
-  simp [listSum]
-
-theorem sumTo_add (n : Nat) (f g : Nat → Rat) : sumTo n (fun i => f i + g i) = sumTo n f + sumTo n g := by
-  induction n with
-  | zero => simp [sumTo_zero]
-  | succ n ih => rw [sumTo_succ, sumTo_succ, sumTo_succ, ih]; ring
-
-theorem sumTo_mul (n : Nat) (c : Rat) (f : Nat → Rat) : sumTo n (fun i => c * f i) = c * sumTo n f := by
-  induction n with
-  | zero => simp [sumTo_zero]
-  | succ n ih => rw [sumTo_succ, sumTo_succ, ih]; ring
-
-theorem sumTo_const (n : Nat) (c : Rat) : sumTo n (fun _ => c) = n * c := by
-  induction n with
-  | zero => simp [sumTo_zero]
-  | succ n ih => rw [sumTo_succ, ih]; push_cast; ring
-
-theorem sumTo_congr (n : Nat) (f g : Nat → Rat) (h : ∀ i, i < n → f i = g i) : sumTo n f = sumTo n g := by
-  induction n with
-  | zero => simp [sumTo_zero]
-  | succ n ih =>
-    rw [sumTo_succ, sumTo_succ, ih (fun i hi => h i (by omega)), h n (by omega)]
-
-theorem sumTo_nonneg (n : Nat) (f : Nat → Rat) (h : ∀ i, 0 ≤ f i) : 0 ≤ sumTo n f := by
-  induction n with
-  | zero => simp [sumTo_zero]
-  | succ n ih => rw [sumTo_succ]; have := h n; linarith
-
-/-- centred values sum to zero -/
-theorem sumTo_centred (n : Nat) (hn : 0 < n) (y : Nat → Rat) : sumTo n (fun i => y i - mean n y) = 0 := by
-  have h : (fun i => y i - mean n y) = (fun i => y i + (-1) * mean n y) := by funext i; ring
-  rw [h, sumTo_add, sumTo_mul, sumTo_const]
-  unfold mean
-  have : (n : Rat) ≠ 0 := by exact_mod_cast hn.ne'
-  field_simp; ring
-
-/-! ### the engine's path loop: each path is used once, at its own index -/
-
-private theorem storeLoop_spec (mk : Nat → Rat) (n : Nat) :
-    ∀ (pre : List (Option Rat)) (post : List (Option Rat)),
-      storeLoop mk pre.length n (pre ++ List.replicate n none ++ post)
-        = pre ++ (List.range n).map (fun i => some (mk (pre.length + i))) ++ post := by
-  induction n with
-  | zero => intro pre post; simp [storeLoop]
-  | succ n ih =>
-    intro pre post
-    have hset : (pre ++ List.replicate (n + 1) none ++ post).set pre.length (some (mk pre.length))
-        = (pre ++ [some (mk pre.length)]) ++ List.replicate n none ++ post := by
-      simp [List.replicate_succ]
-    rw [storeLoop, hset]
-    have hlen : pre.length + 1 = (pre ++ [some (mk pre.length)]).length := by simp
-    rw [hlen, ih (pre ++ [some (mk pre.length)]) post]
-    simp only [List.range_succ_eq_map, List.map_cons, List.map_map, List.append_assoc, List.singleton_append,
-      Nat.add_zero, List.length_append, List.length_cons, List.length_nil]
-    congr 3
-    apply List.map_congr_left
-    intro i _; simp [Function.comp]; congr 1; omega
-
-/-- **each path used once**: after the loop the array holds, at row i, the discounted notional-scaled payoff of
-    path i, for exactly the configured number of paths — no placeholder left, nothing overwritten. -/
-theorem each_path_once (n : Nat) (df notional : Rat) (payoff : Nat → Rat) :
-    stdRows n df notional payoff = (List.range n).map (fun i => some (df * (notional * payoff i))) := by
-  have := storeLoop_spec (fun i => df * (notional * payoff i)) n [] []
-  simpa [stdRows] using this
-
-/-- **price = discount factor × notional × arithmetic mean of the payoff over the n paths** -/
-theorem price_is_df_notional_mean (n : Nat) (df notional : Rat) (payoff : Nat → Rat) :
-    mean n (fun i => df * (notional * payoff i)) = df * (notional * mean n payoff) := by
-  unfold mean
-  rw [sumTo_mul, sumTo_mul]; ring
-
-/-! ### error: unbiased variance over the number of paths, per component -/
-
-/-- the reported squared error is `varU / n` whatever the payoff dimension; the pre-fix code was too small by the
-    factor `d` -/
-theorem stderr_per_component (n d : Nat) (hd : 0 < d) (hn : 0 < n) (y : Nat → Rat) :
-    stderrSq n y = d * stderrSqOld n d y := by
-  unfold stderrSq stderrSqOld
-  have h1 : (n : Rat) ≠ 0 := by exact_mod_cast hn.ne'
-  have h2 : (d : Rat) ≠ 0 := by exact_mod_cast hd.ne'
-  field_simp
-
-/-- witness: for d = 2 the old error differs whenever the variance is not zero -/
-theorem stderr_old_wrong : stderrSqOld 3 2 (fun i => i) ≠ stderrSq 3 (fun i => i) := by
-  unfold stderrSqOld stderrSq varU mean sumTo listSum
-  simp [List.range_succ]; norm_num
-
-/-! ### control variates -/
-
-/-- mean of the adjusted sample, one control, any coefficient -/
-theorem adjust_mean (n : Nat) (hn : 0 < n) (b c : Rat) (x y : Nat → Rat) :
-    mean n (adjust b c x y) = mean n y - b * (mean n x - c) := by
-  unfold mean adjust
-  have h : (fun i => y i - b * (x i - c)) = (fun i => y i + ((-b) * x i + b * c)) := by funext i; ring
-  rw [h, sumTo_add, sumTo_add, sumTo_mul, sumTo_const]
-  have : (n : Rat) ≠ 0 := by exact_mod_cast hn.ne'
-  field_simp; ring
-
-/-- **the adjusted price coincides with the raw mean when the control's sample mean equals its given price**
-    (one control, whatever coefficient the regression produced) -/
-theorem cv_mean_identity (n : Nat) (hn : 0 < n) (b c : Rat) (x y : Nat → Rat) (h : mean n x = c) :
-    mean n (adjust b c x y) = mean n y := by
-  rw [adjust_mean n hn, h]; ring
-
-/-- the same for any number of controls and any coefficient vector -/
-theorem cv_mean_identity_k (n k : Nat) (hn : 0 < n) (b c : Nat → Rat) (x : Nat → Nat → Rat) (y : Nat → Rat)
-    (h : ∀ j, j < k → mean n (x j) = c j) : mean n (adjustK k b c x y) = mean n y := by
-  have hn' : (n : Rat) ≠ 0 := by exact_mod_cast hn.ne'
-  -- Σ_i Σ_j b_j (x_j i − c_j) = 0
-  have key : sumTo n (fun i => sumTo k (fun j => b j * (x j i - c j))) = 0 := by
-    induction k with
-    | zero => simp [sumTo_zero, sumTo_const]
-    | succ k ih =>
-      have hs : (fun i => sumTo (k + 1) (fun j => b j * (x j i - c j)))
-          = (fun i => sumTo k (fun j => b j * (x j i - c j)) + b k * (x k i - c k)) := by
-        funext i; rw [sumTo_succ]
-      rw [hs, sumTo_add, ih (fun j hj => h j (by omega)), sumTo_mul]
-      have hk := h k (by omega)
-      have hc : sumTo n (fun i => x k i - c k) = 0 := by
-        rw [← hk]; exact sumTo_centred n hn (x k)
-      rw [hc]; ring
-  unfold mean adjustK
-  have h2 : (fun i => y i - sumTo k (fun j => b j * (x j i - c j)))
-      = (fun i => y i + (-1) * sumTo k (fun j => b j * (x j i - c j))) := by funext i; ring
-  rw [h2, sumTo_add, sumTo_mul, key]; ring
-
-/-- biased sample variance of the adjusted sample: `var Y − 2 b cov(X,Y) + b² var X` -/
-theorem adjust_var (n : Nat) (hn : 0 < n) (b c : Rat) (x y : Nat → Rat) :
-    varB n (adjust b c x y) = varB n y - 2 * b * covB n x y + b * b * varB n x := by
-  have hn' : (n : Rat) ≠ 0 := by exact_mod_cast hn.ne'
-  unfold varB covB
-  rw [adjust_mean n hn]
-  have h : (fun i => (adjust b c x y i - (mean n y - b * (mean n x - c))) * (adjust b c x y i - (mean n y - b * (mean n x - c))))
-      = (fun i => (y i - mean n y) * (y i - mean n y) + ((-2 * b) * ((x i - mean n x) * (y i - mean n y))
-          + (b * b) * ((x i - mean n x) * (x i - mean n x)))) := by
-    funext i; unfold adjust; ring
-  rw [h, sumTo_add, sumTo_add, sumTo_mul, sumTo_mul]
-  field_simp; ring
-
-theorem varB_nonneg (n : Nat) (y : Nat → Rat) : 0 ≤ varB n y := by
-  unfold varB covB
-  apply div_nonneg
-  · apply sumTo_nonneg; intro i; exact mul_self_nonneg _
-  · exact_mod_cast Nat.zero_le n
-
-/-- **the sample variance of the adjusted estimator never exceeds the raw one** (one control, b* the sample
-    regression coefficient as the code computes it, including the fallback b* = 0) -/
-theorem cv_var_le_raw_one_control (n : Nat) (hn : 0 < n) (c : Rat) (x y : Nat → Rat) :
-    varB n (adjust (bStar n x y) c x y) ≤ varB n y := by
-  rw [adjust_var n hn]
-  unfold bStar
-  split_ifs with hg
-  · simp
-  · have hv : 0 ≤ varB n x := varB_nonneg n x
-    have hne : varB n x ≠ 0 := by
-      intro h0; apply hg; rw [h0]; unfold rabs guard; norm_num
-    have hpos : 0 < varB n x := lt_of_le_of_ne hv (Ne.symm hne)
-    have : varB n y - 2 * (covB n x y / varB n x) * covB n x y + covB n x y / varB n x * (covB n x y / varB n x) * varB n x
-        = varB n y - covB n x y * covB n x y / varB n x := by field_simp; ring
-    rw [this]
-    have : 0 ≤ covB n x y * covB n x y / varB n x := div_nonneg (mul_self_nonneg _) hv
-    linarith
-
-/-- the unbiased variance (what `mc_stddev` reports) is the biased one times n/(n−1), so the inequality carries over -/
-theorem varU_eq (n : Nat) (hn : 1 < n) (y : Nat → Rat) : varU n y = varB n y * (n / (n - 1)) := by
-  unfold varU varB covB
-  have h1 : (n : Rat) ≠ 0 := by exact_mod_cast (by omega : n ≠ 0)
-  have h2 : ((n : Rat) - 1) ≠ 0 := by
-    have : (1 : Rat) < n := by exact_mod_cast hn
-    linarith
-  field_simp
-
-theorem cv_stderr_le_raw_one_control (n : Nat) (hn : 1 < n) (c : Rat) (x y : Nat → Rat) :
-    stderrSq n (adjust (bStar n x y) c x y) ≤ stderrSq n y := by
-  unfold stderrSq
-  rw [varU_eq n hn, varU_eq n hn]
-  have hpos : (0 : Rat) < n := by exact_mod_cast (by omega : 0 < n)
-  have h1 : (0 : Rat) < (n : Rat) - 1 := by
-    have : (1 : Rat) < n := by exact_mod_cast hn
-    linarith
-  have hle := cv_var_le_raw_one_control n (by omega) c x y
-  apply div_le_div_of_nonneg_right _ hpos.le
-  apply mul_le_mul_of_nonneg_right hle
-  positivity
-
-/-! ### non-vacuity -/
-example : mean 4 (fun i => i) = 3 / 2 ∧ varU 4 (fun i => i) = 5 / 3 ∧ bStar 4 (fun i => i) (fun i => 2 * i + 1) = 2 := by
-  refine ⟨?_, ?_, ?_⟩ <;> decide +kernel
-
-end Rpylib.Stats
-
-namespace Rpylib.Stats
-
-/-! ### any number of controls: coefficients solving the normal equations never increase the sample variance
-
-`helper_compute_coefficients` takes `b* = pinv(Σ_X) Σ_XY` (since /repo b087fd1), the least-squares solution of
-`Σ_X b = Σ_XY`; the covariance vector of a sample always lies in the range of its covariance matrix, so the
-pseudo-inverse solves the system exactly.  That `numpy.linalg.pinv` returns such a solution is checked on the
-implementation by the harness (residual of the normal equations), not proved. -/
-
-/-- the combined control `Z_i = Σ_j b_j X_j(i)` -/
-def combo (k : Nat) (b : Nat → Rat) (x : Nat → Nat → Rat) : Nat → Rat := fun i => sumTo k (fun j => b j * x j i)
-
-theorem mean_add (n : Nat) (f g : Nat → Rat) : mean n (fun i => f i + g i) = mean n f + mean n g := by
-  unfold mean; rw [sumTo_add]; ring
-
-theorem mean_smul (n : Nat) (c : Rat) (f : Nat → Rat) : mean n (fun i => c * f i) = c * mean n f := by
-  unfold mean; rw [sumTo_mul]; ring
-
-theorem covB_add_left (n : Nat) (f g y : Nat → Rat) :
-    covB n (fun i => f i + g i) y = covB n f y + covB n g y := by
-  unfold covB
-  rw [mean_add]
-  have h : (fun i => (f i + g i - (mean n f + mean n g)) * (y i - mean n y))
-      = (fun i => (f i - mean n f) * (y i - mean n y) + (g i - mean n g) * (y i - mean n y)) := by funext i; ring
-  rw [h, sumTo_add]; ring
-
-theorem covB_smul_left (n : Nat) (c : Rat) (f y : Nat → Rat) : covB n (fun i => c * f i) y = c * covB n f y := by
-  unfold covB
-  rw [mean_smul]
-  have h : (fun i => (c * f i - c * mean n f) * (y i - mean n y)) = (fun i => c * ((f i - mean n f) * (y i - mean n y))) := by
-    funext i; ring
-  rw [h, sumTo_mul]; ring
-
-theorem covB_comm (n : Nat) (f g : Nat → Rat) : covB n f g = covB n g f := by
-  unfold covB; congr 1; apply sumTo_congr; intro i _; ring
-
-theorem covB_zero_left (n : Nat) (y : Nat → Rat) : covB n (fun _ => 0) y = 0 := by
-  unfold covB mean; simp [sumTo_const]
-
-/-- covariance is linear in the combined control -/
-theorem covB_combo_left (n k : Nat) (b : Nat → Rat) (x : Nat → Nat → Rat) (y : Nat → Rat) :
-    covB n (combo k b x) y = sumTo k (fun j => b j * covB n (x j) y) := by
-  induction k with
-  | zero =>
-    have : combo 0 b x = fun _ => 0 := by funext i; simp [combo, sumTo_zero]
-    rw [this, covB_zero_left, sumTo_zero]
-  | succ k ih =>
-    have : combo (k + 1) b x = fun i => combo k b x i + b k * x k i := by funext i; simp [combo, sumTo_succ]
-    rw [this, covB_add_left, ih, covB_smul_left, sumTo_succ]
-
-/-- the adjusted sample is `Y − Z + const` -/
-theorem adjustK_eq (k : Nat) (b c : Nat → Rat) (x : Nat → Nat → Rat) (y : Nat → Rat) (i : Nat) :
-    adjustK k b c x y i = y i - combo k b x i + sumTo k (fun j => b j * c j) := by
-  unfold adjustK combo
-  have : (fun j => b j * (x j i - c j)) = (fun j => b j * x j i + (-1) * (b j * c j)) := by funext j; ring
-  rw [this, sumTo_add, sumTo_mul]; ring
-
-theorem varB_shift (n : Nat) (hn : 0 < n) (f : Nat → Rat) (c : Rat) : varB n (fun i => f i + c) = varB n f := by
-  have hn' : (n : Rat) ≠ 0 := by exact_mod_cast hn.ne'
-  have hm : mean n (fun i => f i + c) = mean n f + c := by
-    unfold mean; rw [sumTo_add, sumTo_const]; field_simp
-  unfold varB covB
-  rw [hm]; congr 1; apply sumTo_congr; intro i _; ring
-
-theorem varB_sub (n : Nat) (f g : Nat → Rat) :
-    varB n (fun i => f i - g i) = varB n f - 2 * covB n g f + varB n g := by
-  have h : (fun i => f i - g i) = (fun i => f i + (-1) * g i) := by funext i; ring
-  unfold varB
-  rw [h, covB_add_left, covB_smul_left]
-  rw [covB_comm n f (fun i => f i + (-1) * g i), covB_comm n g (fun i => f i + (-1) * g i)]
-  rw [covB_add_left, covB_add_left, covB_smul_left, covB_smul_left, covB_comm n f g]
-  ring
-
-/-- **k controls**: if the coefficient vector solves the normal equations `Σ_l cov(X_j, X_l) b_l = cov(X_j, Y)` for
-    every control j, the sample variance of the adjusted estimator is `var Y − var(Σ b_j X_j) ≤ var Y`. -/
-theorem cv_var_le_raw_normal_equations (n k : Nat) (hn : 0 < n) (b c : Nat → Rat) (x : Nat → Nat → Rat) (y : Nat → Rat)
-    (hne : ∀ j, j < k → sumTo k (fun l => covB n (x j) (x l) * b l) = covB n (x j) y) :
-    varB n (adjustK k b c x y) = varB n y - varB n (combo k b x) ∧ varB n (adjustK k b c x y) ≤ varB n y := by
-  have hadj : adjustK k b c x y = fun i => (y i - combo k b x i) + sumTo k (fun j => b j * c j) := by
-    funext i; exact adjustK_eq k b c x y i
-  -- cov(Z, Y) = var Z from the normal equations
-  have hzy : covB n (combo k b x) y = varB n (combo k b x) := by
-    unfold varB
-    rw [covB_combo_left, covB_combo_left]
-    apply sumTo_congr; intro j hj
-    rw [covB_comm n (x j) (combo k b x), covB_combo_left, ← hne j hj]
-    congr 1
-    apply sumTo_congr; intro l _
-    rw [covB_comm n (x l) (x j)]; ring
-  have e : varB n (adjustK k b c x y) = varB n y - varB n (combo k b x) := by
-    rw [hadj, varB_shift n hn, varB_sub, hzy]; ring
-  exact ⟨e, by rw [e]; have := varB_nonneg n (combo k b x); linarith⟩
-
-end Rpylib.Stats
+import RpylibModel.Proofs.Lemmas.C07Basic
